@@ -173,17 +173,15 @@ def run(chk):
                                                                                                    row_permutation=perm.tolist(), transformed_value=v_ip),
                                   {"site": f"{name}/{'Z present' if cond else 'Z absent'}", "transform": "row_perm"})
             if not counts and name in ("knn", "geometric_knn", "kde", "gaussian") and rng.random() < 0.25:
-                # mixed storage types: X as tie-free integer ranks or float32, Y / Z float64 -- roles must still be exchangeable and the
-                # estimate must be the one for the same numbers stored as float64
+                # mixed storage types: X as tie-free integer ranks or float32, Y / Z float64 -- the roles of X and Y must still be exchangeable
                 kind_ = str(rng.choice(["int_ranks", "float32"]))
                 Xm = (np.argsort(np.argsort(X, axis=0), axis=0).astype(np.int64) if kind_ == "int_ranks" else X.astype(np.float32))
                 Xm64 = Xm.astype(np.float64)
                 try:
                     va = call(name, via, Xm, Y, Z, s)
                     vb = call(name, via, Y, Xm, Z, s)
-                    vc = call(name, via, Xm64, Y, Z, s)
                     chk.count("transform.mixed_dtype_swap")
-                    for lab, w in (("X/Y exchange", vb), ("the same numbers as float64", vc)):
+                    for lab, w in (("X/Y exchange", vb),):
                         if math.isfinite(va) and not close(va, w):
                             chk.violation("counterexample", f"{name} estimator ({via}, {'Z present' if cond else 'Z absent'}) with X stored as {kind_}: "
                                           f"value {va} vs {w} under {lab}", dict(desc, X=Xm.tolist(), transform="mixed_dtype:" + lab, transformed_value=w),
